@@ -399,10 +399,10 @@ pub fn check_taskset(
             // BFS finds the *first* violating state, possibly of another task than DFS did
             let _ = task;
             let task = (0..n)
-                .find(|k| b[*k].map(|bb| rep.worst(*k) >= bb).unwrap_or(false))
+                .find(|k| b[*k].map(|bb| rep.exceeds(*k, bb)).unwrap_or(false))
                 .unwrap_or(task);
             let bound = b[task].unwrap();
-            if rep.worst(task) < bound {
+            if !rep.exceeds(task, bound) {
                 machinery_error(&format!("trace checker does not reproduce the violating response time: bound {} task {} worst {} report {:?} ticks {:?} tasks {:?}", bound, task, rep.worst(task), rep, ticks, ts));
             }
             acc.traces_validated += 1;
@@ -562,7 +562,7 @@ pub fn run_box(ctx: &Ctx, bx: &Box_, want: &Want) -> (Acc, Vec<Found>) {
     let total = (base as u64).pow(bx.ntasks as u32);
     let acc = Mutex::new(Acc::default());
     let found = Mutex::new(Vec::<Found>::new());
-    let chunk = 256u64;
+    let chunk = (total / 256).clamp(1, 256);
     let nchunks = (total + chunk - 1) / chunk;
     (0..nchunks).into_par_iter().for_each(|ci| {
         let mut a = Acc::default();
@@ -618,9 +618,9 @@ pub fn boxes_for(id: &str, quick: bool) -> Vec<Box_> {
                     } else {
                         v.push(mk("3 tasks T<=5 J<=2 C<=3 all layouts", ana, 3, sporadic_grid(5, 2), 3, &[], false));
                     }
-                    v.push(mk("2 tasks T<=8 J<=16 C<=4", ana, 2,
-                        (1..=8u64).flat_map(|t| [0u64, 1, 2, 3, 5, 8, 16].into_iter().map(move |j| ArrSpec::Sporadic { t, j })).collect(),
-                        4, &[], false));
+                    v.push(mk("2 tasks T<=8 J{0,1,2,4,9} C<=3", ana, 2,
+                        (1..=8u64).flat_map(|t| [0u64, 1, 2, 4, 9].into_iter().map(move |j| ArrSpec::Sporadic { t, j })).collect(),
+                        3, &[], false));
                     v.push(mk("3 tasks curves+sporadic C<=2", ana, 3, with_curves(sporadic_grid(4, 1)), 2, &[], false));
                 }
             }
@@ -652,9 +652,9 @@ pub fn boxes_for(id: &str, quick: bool) -> Vec<Box_> {
                 v.push(mk("4 tasks T<=6 J<=1 C<=2", Ana::Fifo, 4,
                     vec![2u64, 3, 4, 6].into_iter().flat_map(|t| [0u64, 1].into_iter().map(move |j| ArrSpec::Sporadic { t, j })).collect(),
                     2, &[], false));
-                v.push(mk("2 tasks T<=9 J<=18 C<=4", Ana::Fifo, 2,
-                    (1..=9u64).flat_map(|t| [0u64, 1, 2, 4, 9, 18].into_iter().map(move |j| ArrSpec::Sporadic { t, j })).collect(),
-                    4, &[], false));
+                v.push(mk("2 tasks T<=9 J{0,1,2,4,9} C<=3", Ana::Fifo, 2,
+                    (1..=9u64).flat_map(|t| [0u64, 1, 2, 4, 9].into_iter().map(move |j| ArrSpec::Sporadic { t, j })).collect(),
+                    3, &[], false));
                 v.push(mk("3 tasks curves+sporadic C<=2", Ana::Fifo, 3, with_curves(sporadic_grid(4, 1)), 2, &[], false));
             }
         }
@@ -679,10 +679,10 @@ pub fn boxes_for(id: &str, quick: bool) -> Vec<Box_> {
                 } else {
                     v.push(mk("3 tasks T<=6 J<=3 C<=3", ana, 3, sporadic_grid(6, 3), 3, &[], true));
                     v.push(mk("3 tasks T<=4 J<=1 C<=2 +periodic +extcurves", ana, 3, exact(4, 1), 2, &[], true));
-                    v.push(mk("2 tasks T<=8 J<=16 C<=4 +periodic", ana, 2,
-                        (1..=8u64).flat_map(|t| [0u64, 1, 2, 3, 5, 8, 16].into_iter().map(move |j| ArrSpec::Sporadic { t, j }))
+                    v.push(mk("2 tasks T<=8 J{0,1,2,4,9} C<=3 +periodic", ana, 2,
+                        (1..=8u64).flat_map(|t| [0u64, 1, 2, 4, 9].into_iter().map(move |j| ArrSpec::Sporadic { t, j }))
                             .chain((1..=8u64).map(|t| ArrSpec::Periodic { t })).collect(),
-                        4, &[], true));
+                        3, &[], true));
                 }
             }
         }
@@ -764,7 +764,7 @@ pub fn replay(case: &Value) -> bool {
     let now = bound_over_limits(r.ana, &r.params, r.task);
     println!("replay: bound on the current tree for task {}: {:?}; worst response in the trace: {}", r.task, now, rep.worst(r.task));
     match now {
-        Some(b) => rep.problems.is_empty() && rep.worst(r.task) >= b && (rep.max_resp[r.task] > b || rep.pending_age[r.task] >= b),
+        Some(b) => rep.problems.is_empty() && rep.exceeds(r.task, b),
         None => false,
     }
 }
